@@ -33,6 +33,7 @@ def main():
     ap.add_argument("--replay", default=None)
     ap.add_argument("--seed", type=int, default=int(os.environ.get("VERIF_SEED", "0") or 0))
     a = ap.parse_args()
+    os.environ["XV_TIER"] = a.tier
     mod = importlib.import_module(f"harness.props.{a.prop.lower()}")
     if a.replay:
         sys.exit(mod.replay(a.replay))
